@@ -50,6 +50,42 @@ mod verif_c06 {
         assert!(hv.len() == used && hv[i] == want[i], "SPEC: COBS over the fixed-capacity vector differs");
     }
 
+    /// every COBS entry point (slice, fixed-capacity vector, growable vector) produces the same frame
+    #[kani::proof]
+    #[kani::unwind(8)]
+    fn api_entry_points() {
+        let v: (u8, bool) = kani::any();
+        let mut buf = [0u8; 6];
+        let used = to_slice_cobs(&v, &mut buf).unwrap().len();
+        let hv: heapless::Vec<u8, 6> = to_vec_cobs(&v).unwrap();
+        let av = to_allocvec_cobs(&v).unwrap();
+        assert!(hv.len() == used && av.len() == used, "SPEC: COBS entry points disagree on the frame length");
+        let i: usize = kani::any();
+        kani::assume(i < used);
+        assert!(hv[i] == buf[i] && av[i] == buf[i], "SPEC: COBS entry points disagree on the frame bytes");
+        core::mem::forget(av);
+    }
+    /// a value whose plain encoding is EMPTY: the frame is [0x01, 0x00] (n + floor(n/254) + 2 bytes with n = 0) through every entry point
+    #[kani::proof]
+    #[kani::unwind(8)]
+    fn api_empty_message() {
+        let mut e = [0xAAu8; 4];
+        let eu = to_slice_cobs(&(), &mut e).unwrap().len();
+        assert!(eu == 2 && e[0] == 1 && e[1] == 0, "SPEC: the frame of an empty message is [0x01, 0x00]");
+        let eh: heapless::Vec<u8, 4> = to_vec_cobs(&PUnit).unwrap();
+        assert!(eh.len() == 2 && eh[0] == 1 && eh[1] == 0, "SPEC: to_vec_cobs of an empty message");
+        let ea = to_allocvec_cobs(&()).unwrap();
+        assert!(ea.len() == 2 && ea[0] == 1 && ea[1] == 0, "SPEC: to_allocvec_cobs of an empty message");
+        core::mem::forget(ea);
+    }
+    #[kani::proof]
+    #[kani::unwind(8)]
+    fn api_empty_message_std() {
+        let es = to_stdvec_cobs(&PUnit).unwrap();
+        assert!(es.len() == 2 && es[0] == 1 && es[1] == 0, "SPEC: to_stdvec_cobs of an empty message");
+        core::mem::forget(es);
+    }
+
     /// several frames back to back: each call returns the value and exactly the bytes after its frame,
     /// whether or not the last frame's sentinel is present
     #[kani::proof]
